@@ -2,10 +2,11 @@
 every cut offset of small reference-encoded files).
 
 Plug-in structure: PLUGINS[format] = Plugin(encode, expected, open_and_read,
-layout).  The CAMx formats are registered below; another format (bpch) only
-has to provide the same four callables."""
+layout[, tag, judge, prepare, steps_dim]).  The CAMx formats are registered
+below; bpch (two readers) comes from vf/bpch14.py."""
 import gc
 import os
+import shutil
 
 import numpy as np
 from hypothesis import strategies as st
@@ -13,6 +14,7 @@ from hypothesis import strategies as st
 from ..core import Result, exc_where, HarnessError
 from .. import camxspec as C
 from .. import camxknown as K
+from .. import bpch14 as BP
 from .. import known
 from .. import libstate
 from ..ref import fortran
@@ -82,8 +84,12 @@ class Expected(object):
 
 
 class Plugin(object):
-    def __init__(self, encode, expected, open_and_read, layout, tag=None):
+    def __init__(self, encode, expected, open_and_read, layout, tag=None,
+                 judge=None, prepare=None, steps_dim='TSTEP'):
         self.tag = tag                      # (spec, Obs) -> str symptom tag
+        self.judge = judge                  # (spec, exp, obs, complete, k)
+        self.prepare = prepare              # (spec, dir): auxiliary files
+        self.steps_dim = steps_dim          # dimension that counts steps
         self.encode = encode                # spec -> bytes
         self.expected = expected            # spec -> Expected
         self.open_and_read = open_and_read  # (spec, path) -> Obs (may raise)
@@ -183,11 +189,17 @@ PLUGINS = {}
 for _f in CAMX_FORMATS:
     PLUGINS[_f] = Plugin(C.ref_bytes, camx_expected, camx_open_and_read,
                          camx_layout, camx_tag)
+BPCH_FORMATS = ['bpch', 'bpch2']      # bpch1 memmap reader, block walker
+for _f in BPCH_FORMATS:
+    PLUGINS[_f] = Plugin(BP.encode, BP.expected, BP.open_and_read, BP.layout,
+                         BP.tag, BP.judge, BP.prepare, steps_dim='time')
 
 
 # ------------------------------------------------------------------ strategy
 @st.composite
 def cases(draw, tier='quick'):
+    if draw(st.integers(0, 4)) == 0:
+        return draw(BP.bpchspecs())
     spec = draw(C.camxspecs(formats=CAMX_FORMATS, max_n=3, max_nz=2,
                             max_steps=3, max_spec=2,
                             step_choices=(1, 1, 1, 2, 3),
@@ -231,6 +243,12 @@ def enumerate_cases(tier):
         s.update(nz=1, nsteps=2, start=[1999, 365, 23])
         s['payload'] = {'mode': 'ramp', 'seed': 0, 'over': []}
         yield s
+    for fmt in BPCH_FORMATS:
+        yield BP.canonical(fmt)
+        s = BP.canonical(fmt)
+        s.update(nt=2, ni=2, nj=1,
+                 payload={'mode': 'ramp', 'seed': 0, 'over': []})
+        yield s
 
 
 # -------------------------------------------------------------------- check
@@ -244,7 +262,7 @@ def classify(k, sp, hend, ends):
             'mid': 'mid-record'}[kind]
 
 
-def judge(spec, exp, o, complete):
+def judge(spec, exp, o, complete, k=None):
     """[(clause, message)] for one prefix whose read completed"""
     out = []
     n = exp.nsteps
@@ -297,6 +315,12 @@ def check_case(spec):
     # the other checks use keeps the (known) endless scans cheap
     C.MAX_NEXTS = 2000
     plug = PLUGINS[fmt]
+    judge_fn = plug.judge or judge
+    sdim = plug.steps_dim
+    base_dir = libstate.scratch_path('_c14')
+    os.makedirs(base_dir)
+    if plug.prepare:
+        plug.prepare(spec, base_dir)
     raw = plug.encode(spec)
     exp = plug.expected(spec)
     hend, ends = plug.layout(spec, raw)
@@ -305,6 +329,8 @@ def check_case(spec):
     r.label('fmt:' + fmt, 'steps:%d' % exp.nsteps)
     if spec.get('nz') == 1:
         r.label('nz:1')
+    if fmt in BPCH_FORMATS:
+        r.label('tracers:%d' % len(spec['tracers']))
     seen_cls = set()
     first = {}          # (clause, class) -> (k, message)
     counts = {}
@@ -313,8 +339,11 @@ def check_case(spec):
         cls = classify(k, sp, hend, ends)
         seen_cls.add(cls)
         counts['offsets:' + cls] = counts.get('offsets:' + cls, 0) + 1
+        if fmt in BPCH_FORMATS:
+            counts['bpch-offsets:' + cls] = \
+                counts.get('bpch-offsets:' + cls, 0) + 1
         complete = sum(1 for e in ends if e <= k)
-        path = libstate.scratch_path('.cut')
+        path = os.path.join(base_dir, 'cut%d.bin' % k)
         with open(path, 'wb') as fo:
             fo.write(raw[:k])
         C.reset_guards()
@@ -332,6 +361,9 @@ def check_case(spec):
                 raise
             except Exception:   # an error is an accepted outcome (property)
                 counts['outcome:raise'] = counts.get('outcome:raise', 0) + 1
+                if fmt in BPCH_FORMATS:
+                    counts['bpch-outcome:raise'] = \
+                        counts.get('bpch-outcome:raise', 0) + 1
                 continue
             if C.tripped():
                 first.setdefault(('nontermination', cls + (
@@ -339,14 +371,16 @@ def check_case(spec):
                     (k, 'prefix of %d of %d bytes: iteration budget '
                      'exhausted' % (k, size)))
                 continue
-            key = 'outcome:steps=%s' % (o.dims.get('TSTEP'),) \
-                if isinstance(o.dims.get('TSTEP'), (int, np.integer)) \
+            key = 'outcome:steps=%s' % (o.dims.get(sdim),) \
+                if isinstance(o.dims.get(sdim), (int, np.integer)) \
                 else 'outcome:steps=non-integer'
             counts[key] = counts.get(key, 0) + 1
-            verdicts = judge(spec, exp, o, complete)
-            m_ = o.dims.get('TSTEP')
+            if fmt in BPCH_FORMATS:
+                counts['bpch-' + key] = counts.get('bpch-' + key, 0) + 1
+            verdicts = judge_fn(spec, exp, o, complete, k)
+            m_ = o.dims.get(sdim)
             if not verdicts and isinstance(m_, (int, np.integer)) and \
-                    m_ > complete:
+                    m_ > complete and fmt not in BPCH_FORMATS:
                 counts['outcome:last-step-lacks-only-marker-or-dummy'] = \
                     counts.get('outcome:last-step-lacks-only-marker-or-dummy',
                                0) + 1
@@ -354,6 +388,9 @@ def check_case(spec):
             if k <= ends[0]:
                 base.append('step1')     # nothing beyond the first step
             ptag = plug.tag(spec, o) if plug.tag else ''
+            if ptag and fmt in BPCH_FORMATS:
+                counts['outcome:bpch-' + ptag] = \
+                    counts.get('outcome:bpch-' + ptag, 0) + 1
             for clause, msg, sym in verdicts:
                 tags = '/'.join(base + [t for t in (ptag, sym) if t])
                 first.setdefault((clause, tags, ''), (
@@ -367,6 +404,7 @@ def check_case(spec):
             except OSError:
                 pass
     gc.collect()
+    shutil.rmtree(base_dir, ignore_errors=True)
     for (clause, cls, where), (k, msg) in sorted(
             first.items(), key=lambda kv: kv[1][0]):
         r.fail(clause, msg, where=where, klass='%s/%s' % (fmt, cls))
